@@ -43,6 +43,7 @@ type slPoly struct {
 	name, family string
 	v            []v2.Vec
 	points       []v2.Vec // additional query points (corpus)
+	light        bool     // grid without the quadtree's box edges (short-edge stratum: vertex levels only)
 }
 
 func slReverse(v []v2.Vec) []v2.Vec {
@@ -502,7 +503,7 @@ func slPolygon(r *Report, rng *Rng, viol func(key, what string, input map[string
 		xs = append(xs, p.X)
 		ys = append(ys, p.Y)
 	}
-	if root := sdf.VerifQtDump(s); root != nil {
+	if root := sdf.VerifQtDump(s); root != nil && !pl.light {
 		ax, ay := slAllLines(root.Box)
 		xs, ys = append(xs, ax...), append(ys, ay...)
 	}
@@ -573,8 +574,9 @@ func slPolygon(r *Report, rng *Rng, viol func(key, what string, input map[string
 			val[j][i] = one(v2.Vec{X: x, Y: y}, "grid/x-"+cls(x, bb.Min.X, bb.Max.X)+"/y-"+cls(y, bb.Min.Y, bb.Max.Y))
 		}
 	}
-	for _, p := range pl.points {
-		one(p, "corpus-point")
+	pv := make([]cell, len(pl.points))
+	for i, p := range pl.points {
+		pv[i] = one(p, "corpus-point")
 	}
 	// ---- 1-Lipschitz between neighbouring grid points (rows and columns)
 	fd := field2(s, desc)
@@ -594,6 +596,23 @@ func slPolygon(r *Report, rng *Rng, viol func(key, what string, input map[string
 			}
 			if j+1 < len(ys) {
 				pair(xs[i], ys[j], xs[i], ys[j+1], val[j][i].g, val[j+1][i].g)
+			}
+		}
+	}
+	// ---- and between the additional query points that share a column (neighbouring levels)
+	if len(pl.points) > 1 {
+		idx := make([]int, len(pl.points))
+		for i := range idx {
+			idx[i] = i
+		}
+		sort.Slice(idx, func(a, b int) bool {
+			p, q := pl.points[idx[a]], pl.points[idx[b]]
+			return p.X < q.X || (p.X == q.X && p.Y < q.Y)
+		})
+		for k := 0; k+1 < len(idx); k++ {
+			p, q := pl.points[idx[k]], pl.points[idx[k+1]]
+			if p.X == q.X && p.Y != q.Y {
+				pair(p.X, p.Y, q.X, q.Y, pv[idx[k]].g, pv[idx[k+1]].g)
 			}
 		}
 	}
